@@ -1,4 +1,4 @@
-"""GENUINE DEFECT (unchanged tree), signature C05:abort-fault-lock-leak:demofile.
+"""REPAIRED in /repo by fix commit 39c0c67 (prints OK on the repaired tree, DEFECT before it); signature C05:abort-fault-lock-leak:demofile.
 
 DemoStorage.tpc_abort: `self._transaction = None; self.changes.tpc_abort(transaction);
 self._commit_lock.release()`.  When changes.tpc_abort raises — a one-shot I/O error on the truncate with
